@@ -7,6 +7,7 @@ import (
 	"sync"
 
 	"verif/harness/core"
+	"verif/harness/drive/outline"
 )
 
 // design models: shape, attribute keys one at a time, callbacks (see MC_PageTree.tla)
@@ -386,7 +387,9 @@ func run(ctx *core.Ctx) error {
 	ctx.Ev.Exhaustive = true
 	ctx.Ev.Set("exhaustive_scope", "PageTree.tla: all interleavings within the constants of the MC_PageTree_*.cfg files; "+
 		"on the real code: every complete behaviour of Gen_PageTree_small*.cfg (scaled), simulated long behaviours beyond")
-	return nil
+	// extension beyond the listed properties: the document outline
+	// (spec/nav/Outline.tla); deviations are NOTE lines, not verdicts
+	return outline.Run(ctx)
 }
 
 func treeStats(nodes []fnode) (depth, fan int, empty, single, indirect bool) {
